@@ -308,39 +308,52 @@ var linRaw = map[string]string{"R1": "-j ACCEPT -s 10.7.7.1", "R2": "-j DROP -s 
 
 func (x *c18) runLinux() {
 	var idx int64
-	for _, s4 := range shapes4 {
-		for _, pre := range rawPre {
-			for _, app := range rawApp {
-				idx++
-				if !x.ctx.Mine(idx) {
-					continue
-				}
-				if len(pre)+len(app) == 0 {
-					continue
-				}
-				var l4, lpre, lapp []string
-				var b4, br strings.Builder
-				b4.WriteString("*filter\n:INPUT DROP\n:FORWARD DROP\n")
-				for _, k := range s4 {
-					b4.WriteString("-A FORWARD " + lin4[k] + "\n")
-					l4 = append(l4, linuxmodel.CanonRule(lin4[k]))
-				}
-				b4.WriteString("COMMIT\n")
-				br.WriteString("*filter\n:FORWARD DROP\n")
-				for _, k := range pre {
-					br.WriteString("-A FORWARD " + linRaw[k] + "\n")
-					lpre = append(lpre, linuxmodel.CanonRule(linRaw[k]))
-				}
-				if len(app) > 0 {
-					br.WriteString("[APPEND]\n")
-					for _, k := range app {
-						br.WriteString("-A FORWARD " + linRaw[k] + "\n")
-						lapp = append(lapp, linuxmodel.CanonRule(linRaw[k]))
+	// layout of the raw file: 0 = one table with COMMIT, 1 = without COMMIT
+	// line, 2 = a mangle table with its own [APPEND] section in front
+	// (with COMMIT), 3 = the same without COMMIT between the tables
+	for layout := 0; layout < 4; layout++ {
+		for _, s4 := range shapes4 {
+			for _, pre := range rawPre {
+				for _, app := range rawApp {
+					idx++
+					if !x.ctx.Mine(idx) {
+						continue
 					}
+					if len(pre)+len(app) == 0 {
+						continue
+					}
+					var l4, lpre, lapp []string
+					var b4, br strings.Builder
+					if layout >= 2 {
+						br.WriteString("*mangle\n:PREROUTING ACCEPT\n-A PREROUTING -j MARK --set-mark 1 -s 10.7.7.7\n[APPEND]\n-A PREROUTING -j MARK --set-mark 2 -s 10.7.7.8\n")
+						if layout == 2 {
+							br.WriteString("COMMIT\n")
+						}
+					}
+					b4.WriteString("*filter\n:INPUT DROP\n:FORWARD DROP\n")
+					for _, k := range s4 {
+						b4.WriteString("-A FORWARD " + lin4[k] + "\n")
+						l4 = append(l4, linuxmodel.CanonRule(lin4[k]))
+					}
+					b4.WriteString("COMMIT\n")
+					br.WriteString("*filter\n:FORWARD DROP\n")
+					for _, k := range pre {
+						br.WriteString("-A FORWARD " + linRaw[k] + "\n")
+						lpre = append(lpre, linuxmodel.CanonRule(linRaw[k]))
+					}
+					if len(app) > 0 {
+						br.WriteString("[APPEND]\n")
+						for _, k := range app {
+							br.WriteString("-A FORWARD " + linRaw[k] + "\n")
+							lapp = append(lapp, linuxmodel.CanonRule(linRaw[k]))
+						}
+					}
+					if layout != 1 {
+						br.WriteString("COMMIT\n")
+					}
+					b := core.Files{Main: b4.String(), Raw: br.String()}
+					x.caseLinux(idx, b, mergeParts{l4, nil, lpre, lapp})
 				}
-				br.WriteString("COMMIT\n")
-				b := core.Files{Main: b4.String(), Raw: br.String()}
-				x.caseLinux(idx, b, mergeParts{l4, nil, lpre, lapp})
 			}
 		}
 	}
@@ -629,7 +642,7 @@ func c18Worker(ctx *core.Ctx) *core.Result {
 func init() {
 	registerSharded("C18", c18Worker, func(tier string) core.Meta {
 		return core.Meta{ID: "C18", Level: "exploration",
-			Rule: "all combinations of part shapes: Netspoc IPv4 part {empty, only deny, permit+deny, only permits, 2 permits+deny, 2 denies} x IPv6 part (same shapes; ASA, PAN-OS, NSX) x raw prepend entries {0,1,2} x raw [APPEND] entries {0,1,2} x raw ACL name {equal to Netspoc's, own}; for ASA, IOS, Linux, PAN-OS, NSX; the effective target is observed as the state an empty device model reaches after executing the script of the real planner; oracle = independent list predicates: every entry exactly once, order inside each part preserved, raw entries in front of all Netspoc entries, [APPEND] entries behind the last permitting Netspoc entry and in front of the trailing deny/drop entries (PAN-OS: at the end; NSX: only completeness); plus a list of unmergeable raw entries (unknown command, unbound / doubly bound object, name clash, forbidden names) that must give an error or a warning; non-trivial = combinations the tool accepted and whose result was checked",
+			Rule:        "all combinations of part shapes: Netspoc IPv4 part {empty, only deny, permit+deny, only permits, 2 permits+deny, 2 denies} x IPv6 part (same shapes; ASA, PAN-OS, NSX) x raw prepend entries {0,1,2} x raw [APPEND] entries {0,1,2} x raw ACL name {equal to Netspoc's, own}; Linux additionally x raw file layout {one table with / without COMMIT line, a second table with its own [APPEND] section in front, with / without COMMIT between}; for ASA, IOS, Linux, PAN-OS, NSX; the effective target is observed as the state an empty device model reaches after executing the script of the real planner; oracle = independent list predicates: every entry exactly once, order inside each part preserved, raw entries in front of all Netspoc entries, [APPEND] entries behind the last permitting Netspoc entry and in front of the trailing deny/drop entries (PAN-OS: at the end; NSX: only completeness); plus a list of unmergeable raw entries (unknown command, unbound / doubly bound object, name clash, forbidden names) that must give an error or a warning; non-trivial = combinations the tool accepted and whose result was checked",
 			Assumptions: []string{"relative order of IPv4 and IPv6 entries is not prescribed by the statement and not checked"},
 			Bounds:      map[string]any{"entries per part": "<=3 Netspoc, <=2 raw, <=2 APPEND"},
 		}
